@@ -107,7 +107,7 @@ class TipperSurvey(FEMSurvey, AirborneEMSurvey):
         """
         indices = self.mask_by_extent(extent, inverse=inverse)
 
-        if indices is None:
+        if indices is None or not np.any(indices):
             return None
 
         new_entity = self.copy(
